@@ -86,6 +86,19 @@ def level2():
     return out
 
 
+def constructor_pairs():
+    """Every ordered pair of builder functions nested once: unary(unary(X<1>)), and each binary builder with a composite
+    unary child on either side. Always included, so that an interaction between two cooperating builders (e.g. unary minus
+    applied to a quotient) is covered in the quick tier as well."""
+    out = []
+    for u1 in UNARY:
+        for u2 in UNARY: out.append(unary(u1, unary(u2, ('X', 1))))
+    for b in BINARY:
+        for u in UNARY:
+            out.append((b, unary(u, ('X', 1)), ('D', 1))); out.append((b, ('D', 1), unary(u, ('V',))))
+    return out
+
+
 # expressions that the statement, the README and the examples spell out explicitly; always included
 NAMED = [
     ('commutator', ('sub', ('mul', ('D', 1), ('X', 1)), ('mul', ('X', 1), ('D', 1)))),
@@ -122,7 +135,10 @@ def main():
     rnd = random.Random(seed)
     if mode == 'c05':
         trees = [(nm, t) for nm, t in NAMED] + [(lib(t), t) for t in level1(LEAVES)]
-        l2 = level2()
+        have = set(t for _, t in trees)
+        for t in constructor_pairs():
+            if t not in have: trees.append((lib(t), t)); have.add(t)
+        l2 = [t for t in level2() if t not in have]
         if tier == 'quick':
             rnd.shuffle(l2)
             l2 = l2[:int(os.environ.get('C05_L2_QUICK', '160'))]
